@@ -20,6 +20,10 @@ structure Matcher where
   /-- number of bytes of the input the automaton can consume before it jams (the look-ahead the
       generated scanner may have in its buffer when it checks `YYLMAX`, finding F28) -/
   scan : (sc : Nat) → (bol : Bool) → List UInt8 → Nat := fun _ _ _ => 0
+  /-- number of bytes of the input the scanner has to *see* before it can decide on the token:
+      a batch scanner runs into the byte that jams the automaton; an interactive one also stops
+      as soon as the state reached has no outgoing transition at all -/
+  need : (interactive : Bool) → (sc : Nat) → (bol : Bool) → List UInt8 → Nat := fun _ _ _ _ => 0
 
 structure Cfg where
   bolNeeded : Bool := false      -- some rule uses `^` (the scanner tracks line starts)
@@ -30,6 +34,9 @@ structure Cfg where
   yylmax : Nat := 0              -- %array scanners: size of yytext (0: %pointer, no limit)
   actionOf : Array Nat := #[]    -- rule ↦ the rule whose action it shares ('|' actions); index rule-1
   stackDepthLimit : Nat := 0     -- unused (the stack is unbounded)
+  logReads : Bool := false       -- trace how many bytes have been requested from the source (`rd n`)
+  interactive : Bool := false    -- the scanner stops at states without outgoing transitions
+  srcTotal : Nat := 0            -- length of the (single) source when `logReads`
 deriving Inhabited
 
 inductive Op
@@ -78,6 +85,9 @@ structure AState where
   rejectList : List (Nat × Nat) := []  -- remaining (len, rule) alternatives at this position
   tokInput : List UInt8 := []          -- the input as it was when the token started (for REJECT)
   textValid : Bool := true             -- false after yyunput in a %pointer scanner
+  /-- `logReads`: how many bytes at the end of the current buffer's `pending` the scanner has not
+      yet asked its input routine for (`none`: nothing scanned yet, i.e. all of it) -/
+  unfetched : Option Nat := none
 deriving Inhabited
 
 def hexDigit (n : Nat) : Char := if n < 10 then Char.ofNat (48 + n) else Char.ofNat (87 + n)
@@ -100,6 +110,10 @@ def setCurBuf (s : AState) (b : ABuf) : AState :=
   match s.cur with
   | some i => { s with bufs := s.bufs.setIfInBounds i b }
   | none => s
+
+/-- the scanner has to see the first `d` bytes of the `plen` pending ones -/
+def noteNeed (s : AState) (d plen : Nat) : AState :=
+  { s with unfetched := some (min (s.unfetched.getD plen) (plen - min d plen)) }
 
 def fatal (s : AState) (cls : String) : AState := { (s.emit s!"fatal {cls}") with halted := true }
 
@@ -306,6 +320,7 @@ def runAction (M : Matcher) (cfg : Cfg) (s : AState) : List Op → AState × Act
       let s := if c == 10 then s.addLineno cfg (-1) else s
       runAction M cfg { s with textValid := false } ops
     | .input =>
+      let s := if cfg.logReads then s.noteNeed 1 s.curBuf.pending.length else s
       let s := inputOp cfg s (s.wraps.length + 2)
       if s.halted then (s, .halt) else runAction M cfg s ops
     | .reject => (s, .rejected)
@@ -335,6 +350,7 @@ def runAlternatives (M : Matcher) (cfg : Cfg) (s : AState) (inp : List UInt8) (p
     -- every alternative starts from the state the token started in
     let s0 := (s.setCurBuf bufBefore)
     let s0 := if cfg.reentrant then s0 else { s0 with lineno := linenoBefore }
+    let s0 := if cfg.logReads then s0.emit s!"rd {cfg.srcTotal - s0.unfetched.getD 0}" else s0
     let s1 := beginMatch M cfg s0 inp len rule prefix_
     if s1.halted then (s1, .halt) else
     -- the default rule's action (ECHO) is not user code: it takes no script
@@ -377,6 +393,7 @@ def lexCall (M : Matcher) (cfg : Cfg) : Nat → AState → AState
       -- which this model abstracts from — the trace marks the tokens where it may
       let s := if cfg.yylmax != 0 && prefix_.length + M.scan s.start b.atBol inp + 1 ≥ cfg.yylmax
                then s.emit "mayfatal" else s
+      let s := if cfg.logReads then s.noteNeed (M.need cfg.interactive s.start b.atBol inp) inp.length else s
       let lnBefore := if cfg.reentrant then b.lineno else s.lineno
       let (s, e) := runAlternatives M cfg s inp prefix_ b lnBefore cands
       match e with
